@@ -79,7 +79,7 @@ PROPS["C10"] = {
     "outside": ["longer pre-state lists", "content > MaxInt32 bytes"],
     "assumptions": ["pool contracts (C12)", "append() capacity growth unspecified"],
     "units": [
-        {"name": "elastic", "pkgdir": "pkg/buffer/elastic", "files": ["harness/elastic/c10_elastic.go"], "mode": "int", "contracts": ["byteslice", "ringbuffer"],
+        {"name": "elastic", "pkgdir": "pkg/buffer/elastic", "files": ["harness/elastic/elastic_common.go", "harness/elastic/c10_elastic.go"], "mode": "int", "contracts": ["byteslice", "ringbuffer"],
          "extra": [("pkg/buffer/ring", "harness/ring/ring_common.go"), ("pkg/buffer/ring", "harness/ring/ring_export.go"),
                    ("pkg/buffer/linkedlist", "harness/linkedlist/list_common.go"), ("pkg/buffer/linkedlist", "harness/linkedlist/list_export.go")],
          "cfg": {"vcfg": {"nodes": 1, "reader_calls": 2, "segs": 2}}, "cfg_thorough": {"vcfg": {"nodes": 2, "reader_calls": 2, "segs": 3}}},
@@ -195,12 +195,148 @@ PROPS["C14"] = {
     "outside": ["populations beyond the bound", "concurrent access (the registry is loop-confined)"],
     "assumptions": ["live descriptors are pairwise distinct (kernel)"],
     "units": [
-        dict(_C14_COMMON, name="map", pkgdir=".", files=["harness/gnet/c14_registry.go", "harness/gnet/c14_map.go"],
+        dict(_C14_COMMON, name="map", pkgdir=".", files=["harness/gnet/c14_pick.go", "harness/gnet/c14_registry.go", "harness/gnet/c14_map.go"],
              cfg={"vcfg": {"steps": 4, "maxlive": 3, "maxpop": 4}}, cfg_thorough={"vcfg": {"steps": 6, "maxlive": 4, "maxpop": 6}}),
-        dict(_C14_COMMON, name="matrix-scaled", pkgdir=".", tags="gc_opt", mode="bv", files=["harness/gnet/c14_registry.go", "harness/gnet/c14_matrix.go"],
+        dict(_C14_COMMON, name="matrix-scaled", pkgdir=".", tags="gc_opt", mode="bv", files=["harness/gnet/c14_pick.go", "harness/gnet/c14_registry.go", "harness/gnet/c14_matrix.go"],
              rewrites={"internal/gfd/gfd.go": _scale_columns(2)},
              cfg={"vcfg": {"steps": 4, "maxlive": 3, "maxpop": 4}}, cfg_thorough={"vcfg": {"steps": 6, "maxlive": 5, "maxpop": 6}}),
-        dict(_C14_COMMON, name="matrix-true-constant", pkgdir=".", tags="gc_opt", tier="thorough", mode="bv", files=["harness/gnet/c14_registry.go", "harness/gnet/c14_matrix.go"],
+        dict(_C14_COMMON, name="matrix-true-constant", pkgdir=".", tags="gc_opt", tier="thorough", mode="bv", files=["harness/gnet/c14_pick.go", "harness/gnet/c14_registry.go", "harness/gnet/c14_matrix.go"],
              cfg={"vcfg": {"steps": 3, "maxlive": 2, "maxpop": 2}}, cfg_thorough={"vcfg": {"steps": 3, "maxlive": 2, "maxpop": 2}}),
     ],
+}
+
+
+# ------------------------------------------------------------------ loop-step world (ghost kernel redirections)
+_VK_IMPORT = 'import vk "github.com/panjf2000/gnet/v2/internal/vk"'
+
+
+def _vk_redirect(pairs, extra_tail=""):
+    """scratch copy of a repo file with its system calls redirected to the ghost kernel (internal/vk)"""
+    def gen(src, out):
+        import re
+        s = open(src).read()
+        n = 0
+        for a, b in pairs:
+            n += s.count(a)
+            s = s.replace(a, b)
+        if n == 0:
+            raise RuntimeError("no redirection anchor found in " + src)
+        # add the vk import right after the package clause
+        s = re.sub(r"(?m)^(package \w+)$", r"\1\n\n" + _VK_IMPORT, s, count=1)
+        # imports whose last use was redirected away must stay alive
+        for ident, path, keep in (("unix", '"golang.org/x/sys/unix"', "var _ = unix.EAGAIN"),
+                                  ("socket", '"github.com/panjf2000/gnet/v2/pkg/socket"', "var _ = socket.SockaddrToUDPAddr"),
+                                  ("unsafe", '"unsafe"', "var _ unsafe.Pointer")):
+            if path in s and (ident + ".") not in s.replace(path, ""):
+                s += "\n" + keep + " // keep the import alive (verification overlay)\n"
+        open(out, "w").write(s + extra_tail)
+    return gen
+
+
+_LOOP_REWRITES = {
+    "eventloop_unix.go": _vk_redirect([("unix.Read(", "vk.Read("), ("unix.Write(", "vk.Write("), ("unix.Close(", "vk.Close("), ("unix.Recvfrom(", "vk.Recvfrom(")]),
+    "connection_unix.go": _vk_redirect([("unix.Write(", "vk.Write("), ("unix.Sendto(", "vk.Sendto("), ("unix.Send(", "vk.Send("), ("socket.Dup(c.fd)", "vk.Dup(c.fd)")]),
+    "acceptor_unix.go": _vk_redirect([("socket.Accept(", "vk.Accept("), ("unix.Close(", "vk.Close(")]),
+    "listener_unix.go": _vk_redirect([("unix.Close(", "vk.Close("), ("socket.Dup(ln.fd)", "vk.Dup(ln.fd)")]),
+    "pkg/io/io_linux.go": _vk_redirect([("unix.Writev(", "vk.Writev(")]),
+    "pkg/netpoll/poller_epoll_default.go": _vk_redirect(
+        [("unix.EpollCtl(", "vk.EpollCtl("), ("unix.Write(p.efd", "vk.Write(p.efd"), ("unix.Read(p.efd", "vk.Read(p.efd"), ("unix.Close(", "vk.Close("),
+         ("b        = (*(*[8]byte)(unsafe.Pointer(&u)))[:]", "b        = []byte{1, 0, 0, 0, 0, 0, 0, 0}")]),
+}
+
+_LOOP_EXTRA = [("internal/vk", "harness/vk/vk.go"), ("pkg/netpoll", "harness/netpoll/export.go"),
+               ("pkg/buffer/ring", "harness/ring/ring_common.go"), ("pkg/buffer/ring", "harness/ring/ring_export.go"),
+               ("pkg/buffer/linkedlist", "harness/linkedlist/list_common.go"), ("pkg/buffer/linkedlist", "harness/linkedlist/list_export.go"),
+               ("pkg/buffer/elastic", "harness/elastic/elastic_common.go"), ("pkg/buffer/elastic", "harness/elastic/export.go")]
+
+_LOOP_COMMON = {"pkgdir": ".", "mode": "int", "unwind": 8, "contracts": ["byteslice", "ringbuffer", "net_ipv4", "gnet_env"], "stub_values": GNET_STUB_VALUES,
+                "opaque_calls": GNET_OPAQUE + ["fmt.", "runtime.", "os.RemoveAll", "time."], "skip_pkgs": ["github.com/panjf2000/gnet/v2/pkg/logging"],
+                "extra": _LOOP_EXTRA, "rewrites": _LOOP_REWRITES}
+
+PROPS["C08"] = {
+    "claimed": False,
+    "level": "other",
+    "level_text": "Bounded symbolic execution of the real readUDP / Write / SendTo / Writev path on a UDP listener over a ghost kernel holding a datagram of symbolic length (0..65507), content and source address; two consecutive datagrams; z3 decides every obligation.",
+    "level_note": "The kernel is a stub (one datagram waiting, recvfrom truncates to the buffer, sendto records destination and bytes); concurrent senders are the kernel's queueing and are outside; IPv4 source addresses in the harness (the conversion code for IPv6 is covered by C17). Trusted: go/ssa lowering, SSA->SMT translation, z3.",
+    "design_ref": "DESIGN.md section 5 (loop-step family, C08)",
+    "explanation": "readUDP executed from go/ssa with system calls redirected to the ghost kernel in scratch copies of the calling files.",
+    "bounds": {"datagram": "0..65507 bytes", "read_buffer": "1..2^31", "events": "3 consecutive readUDP calls"},
+    "outside": ["IPv6 sources in this harness", "arrival interleavings of several senders (kernel queue)"],
+    "assumptions": ["ghost kernel contract for recvfrom/sendto"],
+    "units": [dict(_LOOP_COMMON, name="loop-udp", files=["harness/gnet/vloop_world.go", "harness/gnet/c08_udp.go"])],
+}
+
+PROPS["C01"] = {
+    "claimed": False,
+    "level": "other",
+    "level_text": "Bounded symbolic execution of one read event of the real I/O path (eventloop.read, conn.processIO, conn.Read/Next/Peek/Discard/WriteTo, inbound elastic ring buffer, real poller Trigger) from an arbitrary valid connection state over a ghost kernel with symbolic pending bytes, segmentation (short reads in LT), FIN and chunk limit; the handler's view is compared with the abstract stream inbound++pending at a free position; the representation invariant is re-proved, so a pass is inductive over event histories.",
+    "level_note": "One event per harness; <= 2 successful read(2) calls per event (quick), sizes <= 2^31; the kernel is a stub with the contract stated in DESIGN.md (LT: any non-empty prefix; ET: exactly min(pending, len), new data raises a new edge). Configurations: LT / ET+chunk, default build (poll_opt and gc_opt differ only in dispatch/registry and are covered by C14 / thorough). Trusted: go/ssa lowering, SSA->SMT translation, z3, ghost kernel contract.",
+    "design_ref": "DESIGN.md section 5 (loop-step family, C01)",
+    "explanation": "Real framework code from go/ssa, system calls redirected to the ghost kernel (internal/vk) in scratch copies of the calling files.",
+    "bounds": {"reads_per_event": 2, "sizes": "<= 2^31", "handler": "one of none/Read/Next/Peek+Discard/WriteTo per event with symbolic sizes"},
+    "outside": ["real kernel behaviour beyond the stub contract", "cross-event schedules (covered inductively by the invariant)"],
+    "assumptions": ["ghost kernel contract", "pool contracts (C12)"],
+    "units": [dict(_LOOP_COMMON, name="loop-inbound", files=["harness/gnet/vloop_world.go", "harness/gnet/c01_inbound.go"], cfg={"vcfg": {"reads": 1, "nodes": 1}}, cfg_thorough={"vcfg": {"reads": 2, "nodes": 1}})],
+}
+
+PROPS["C04"] = {
+    "claimed": False,
+    "level": "other",
+    "level_text": "Bounded symbolic execution of one lifecycle event of the real loop code (eventloop.close/read/wake/closeConns, conn.processIO, the Close/Wake/AsyncWrite task closures run through the real poller queue) from an arbitrary valid connection state, for every close cause, with handlers that close synchronously inside OnTraffic/OnClose, and for requests reaching a closed connection whose descriptor number was re-used; ghost callback counters and the descriptor ledger are the oracle.",
+    "level_note": "One event per harness (the representation invariant makes a pass inductive over event histories); interleavings of several goroutines posting close requests are C03's subject (the tasks are executed here in queue order). Trusted: go/ssa lowering, SSA->SMT translation, z3, ghost kernel contract.",
+    "design_ref": "DESIGN.md section 5 (loop-step family, C04)",
+    "explanation": "Real framework code from go/ssa over the ghost kernel.",
+    "bounds": {"events": 1, "reads_per_event": 1, "writes_per_event": 2},
+    "outside": ["cross-goroutine races between close causes (C03/C05)"],
+    "assumptions": ["ghost kernel contract", "pool contracts (C12)"],
+    "units": [dict(_LOOP_COMMON, name="loop-lifecycle", files=["harness/gnet/vloop_world.go", "harness/gnet/c04_lifecycle.go"], cfg={"vcfg": {"nodes": 1}})],
+}
+
+PROPS["C02"] = {
+    "claimed": False,
+    "level": "other",
+    "level_text": "Bounded symbolic execution of one outbound operation of the real I/O path (conn.write/writev/open, asyncWrite(v) tasks through the real poller queue, eventloop.write, the real elastic ring+list buffer) from an arbitrary valid outbound-buffer state over a ghost kernel that accepts any prefix; conservation and order of wire++buffer are checked at a free position, LT write-interest and ET re-flush obligations included; the invariant is re-proved (inductive over operation histories).",
+    "level_note": "One operation per harness; <= 2 write(2)/writev(2) calls per event (quick); payload sizes <= 2^31; Writev with 1..2 segments (quick) / 3 (thorough) plus the concrete 1025-segment case; kernel = stub contract (short write => socket buffer full; ET EAGAIN after short write). Eventual drain ('never remains unsent forever') is reduced to the one-step progress/re-arm obligations. Trusted: go/ssa lowering, SSA->SMT translation, z3.",
+    "design_ref": "DESIGN.md section 5 (loop-step family, C02)",
+    "explanation": "Real framework code from go/ssa over the ghost kernel.",
+    "bounds": {"operations": 1, "writes_per_event": 2, "writev_segments": "1..2 (+1025 concrete)", "sizes": "<= 2^31"},
+    "outside": ["real kernel behaviour beyond the stub contract", "multi-goroutine issue order (C03)"],
+    "assumptions": ["ghost kernel contract", "pool contracts (C12)"],
+    "units": [dict(_LOOP_COMMON, name="loop-outbound", files=["harness/gnet/vloop_world.go", "harness/gnet/c14_pick.go", "harness/gnet/c02_outbound.go"], cfg={"vcfg": {"writes": 2, "nodes": 1, "segs": 2}})],
+}
+
+PROPS["C18"] = {
+    "claimed": False,
+    "level": "other",
+    "level_text": "Bounded symbolic execution of single events of the real I/O path with ONE injected system-call failure (symbolic call site among the calls the event makes, symbolic errno from a realistic set) plus the accept/registration error paths; z3 decides isolation obligations: failed connection closed once with a non-nil error and its descriptor released, no engine-stopping result, bystander connection untouched, retryable conditions invisible.",
+    "level_note": "One fault per event (pairs of faults are outside the quick bound); fault sites = every redirected call the event reaches (read, write, writev, epoll_ctl, close, accept); errno set {ECONNRESET, EPIPE, ETIMEDOUT, EBADF, ENOMEM, EINVAL, ENOBUFS (+EINTR mapped)}; epoll_wait EINTR belongs to the Polling loop (C03). Trusted: go/ssa lowering, SSA->SMT translation, z3, ghost kernel.",
+    "design_ref": "DESIGN.md section 5 (loop-step family, C18)",
+    "explanation": "Real framework code from go/ssa over the ghost kernel with fault injection.",
+    "bounds": {"faults_per_event": 1, "events": "readable+reply write / writable flush / async write(v) task / accept (both reactor modes)"},
+    "outside": ["pairs of faults", "epoll_wait failures"],
+    "assumptions": ["ghost kernel contract"],
+    "units": [dict(_LOOP_COMMON, name="loop-fault", files=["harness/gnet/vloop_world.go", "harness/gnet/c18_fault.go"], cfg={"vcfg": {"nodes": 1}})],
+}
+
+
+def _gnet_stop_rewrite(src, out):
+    s = open(src).read()
+    a = "if e.eng.isShutdown() {\n\t\t\treturn nil"
+    if a not in s:
+        raise RuntimeError("gnet.go: Stop poll loop anchor not found")
+    open(out, "w").write(s.replace(a, "if vIsShutdownPoll(e.eng) {\n\t\t\treturn nil"))
+
+
+PROPS["C19"] = {
+    "claimed": False,
+    "level": "other",
+    "level_text": "Bounded symbolic execution of the real control API (Engine.Validate/CountConnections/Dup/DupListener/Register/Stop, eventloop.Register/Enroll/Execute argument checks, the registration task's completion callback) over every handle state; Stop's poll loop runs with the terminal flag flipping at a nondeterministic poll and a context that may already have ended.",
+    "level_note": "Sequential only: calls racing with an ongoing shutdown from several goroutines and the goroutine/channel hand-off of Register/Enroll through the ants pool are NOT covered ('exactly one result' is reduced to: the registration task invokes its completion callback exactly once on every path). Stop's loop: the ticker is an opaque channel, isShutdown() inside the loop is redirected to a stub that may complete the shutdown at any poll (monotone). Trusted: go/ssa lowering, SSA->SMT translation, z3.",
+    "design_ref": "DESIGN.md section 5 (C19)",
+    "explanation": "Real gnet.go / eventloop_unix.go code from go/ssa; channels and select are executed by a minimal sequential channel model.",
+    "bounds": {"stop_poll_iterations": "<= 8 (unwinding bound, environment-driven)", "handle_states": 4},
+    "outside": ["concurrent control calls", "Register/Enroll worker goroutine and result channel"],
+    "assumptions": ["time.Ticker opaque", "shutdown completion modelled as a monotone flag"],
+    "units": [dict(_LOOP_COMMON, name="control", files=["harness/gnet/vloop_world.go", "harness/gnet/c14_pick.go", "harness/gnet/c19_control.go"],
+                   rewrites=dict(_LOOP_REWRITES, **{"gnet.go": _gnet_stop_rewrite}), cfg={"vcfg": {"nodes": 1}})],
 }
